@@ -509,18 +509,18 @@ Definition eio_error_message := PStr (s2l "eio-refused").
 (* connect(url, auth=, namespaces=, wait=): `eio_fails` makes the fake transport raise
    engineio.exceptions.ConnectionError; `window` = the server packets that arrive while
    connect() waits (they are handled with `connected` still False). *)
-Definition api_connect (c : cfg) (nss : option (list str)) (auth : pv) (wait eio_fails : bool)
-           (window : list (pv * jtable)) : CM unit :=
+(* connect(), up to and including eio.connect() and the CONNECT packets *)
+Definition connect_begin (c : cfg) (nss : option (list str)) (auth : pv) (eio_fails : bool) : CM unit :=
   s <~ getS ;;
   if connected s then raise ConnectionError else
-  let namespaces := match nss with None => derived_namespaces c | Some l => l end in
-  set_conn namespaces auth ;;;
+  let want := match nss with None => derived_namespaces c | Some l => l end in
+  set_conn want auth ;;;
   set_namespaces (fun _ => []) ;;;
   s1 <~ getS ;;
   (* eio.connect *)
   if negb (eiost_eqb (eio_state s1) EDisconnected) then raise ValueError else
   if eio_fails then
-    forM namespaces (fun n => trigger_ c ev_connect_error n [eio_error_message]) ;;;
+    forM want (fun n => trigger_ c ev_connect_error n [eio_error_message]) ;;;
     raise ConnectionError
   else
   eio_open ;;;
@@ -530,15 +530,21 @@ Definition api_connect (c : cfg) (nss : option (list str)) (auth : pv) (wait eio
   if failed : bool then
     (* the 'connect' handler failed: engine.io resets and raises its ConnectionError *)
     eio_reset ;;;
-    forM namespaces (fun n => trigger_ c ev_connect_error n [PStr (s2l "Connect handler failed")]) ;;;
+    forM want (fun n => trigger_ c ev_connect_error n [PStr (s2l "Connect handler failed")]) ;;;
     raise ConnectionError
-  else
-  (if wait then
-     forM window (fun m => deliver c (fst m) (snd m)) ;;;
-     s2 <~ getS ;;
-     if set_eqb (map fst (Client.namespaces s2)) (conn_ns s2) then ret tt
-     else api_disconnect c ;;; raise ConnectionError
-   else ret tt) ;;;
+  else ret tt.
+
+(* the wait loop of connect(wait=True) and its failure path *)
+Definition connect_wait (c : cfg) (window : list (pv * jtable)) : CM unit :=
+  forM window (fun m => deliver c (fst m) (snd m)) ;;;
+  s2 <~ getS ;;
+  if set_eqb (map fst (namespaces s2)) (conn_ns s2) then ret tt
+  else api_disconnect c ;;; raise ConnectionError.
+
+Definition api_connect (c : cfg) (nss : option (list str)) (auth : pv) (wait eio_fails : bool)
+           (window : list (pv * jtable)) : CM unit :=
+  connect_begin c nss auth eio_fails ;;;
+  (if wait then connect_wait c window else ret tt) ;;;
   set_connected true.
 
 (* ---- operations of a history ---- *)
